@@ -146,23 +146,19 @@ pub trait Runner {
 }
 
 macro_rules! runner {
-  ($name:ident, $env:ident, $build:ident, $form:ident, $subject:ty, $boxsub:ty, $progrc:ident, $groupprobe:ident,
+  ($name:ident, $env:ident, $build:ident, $groups:ident, $form:ident, $subject:ty, $boxsub:ty, $progrc:ident, $groupprobe:ident,
    $bx:ty, $react:ty, $multi:ty) => {
     /// typed outer probe of a group_by pipeline: records the announcement and
     /// attaches a fresh probe to the group from inside the callback
     pub struct $groupprobe {
       id: i64,
       sh: Arc<Shared>,
-      base: i64,
-      count: Arc<Mutex<i64>>,
+      reg: Arc<Mutex<GroupReg>>,
     }
     impl Observer<rxrust::ops::group_by::KeyObservable<Val, $subject>, Val> for $groupprobe {
       fn next(&mut self, g: rxrust::ops::group_by::KeyObservable<Val, $subject>) {
-        let sid = {
-          let mut c = self.count.lock().unwrap();
-          *c += 1;
-          self.base + *c
-        };
+        // the key function has just numbered this group
+        let sid = self.reg.lock().unwrap().last;
         self.sh.record(self.id, 'N', Val::G(sid, Box::new(g.key.clone())));
         let p: Probe<$react> = Probe::new(&self.sh, None);
         let _ = g.actual_subscribe(p);
@@ -181,7 +177,6 @@ macro_rules! runner {
     pub struct $name {
       pub env: $env,
       pub handles: Vec<Option<$boxsub>>,
-      pub gcount: Arc<Mutex<i64>>,
       pub dead: bool,
       /// pipelines are built once per root and subscribed through clones
       pub built: std::collections::HashMap<usize, $bx>,
@@ -204,11 +199,11 @@ macro_rules! runner {
           subjects: (0..cfg.nsubj).map(|_| <$subject>::default()).collect(),
           behaviors: (0..cfg.nbeh).map(|_| BehaviorSubject::new(Val::I(9))).collect(),
           hotc: (0..cfg.nhotc).map(|_| Default::default()).collect(),
+          groups: Default::default(),
         };
         $name {
           env,
           handles: vec![],
-          gcount: Arc::new(Mutex::new(0)),
           dead: false,
           built: Default::default(),
           published: Default::default(),
@@ -243,18 +238,9 @@ macro_rules! runner {
         match s.k.as_str() {
           "sub" => {
             let root = s.a as usize;
-            let h = if self.env.prog[root - 1].op == "group_by" {
-              let ast = self.env.prog[root - 1].clone();
-              let a = ast.a;
-              let gp = $groupprobe {
-                id: sh.new_probe_id(),
-                sh: sh.clone(),
-                base: (self.env.subjects.len() + self.env.behaviors.len()) as i64,
-                count: self.gcount.clone(),
-              };
-              let u = $build(&self.env, ast.s1)
-                .group_by::<_, _, $subject>(move |v: &Val| keyf(a, v))
-                .actual_subscribe(gp);
+            let h = if is_groups(&self.env.prog, root) {
+              let gp = $groupprobe { id: sh.new_probe_id(), sh: sh.clone(), reg: self.env.groups.clone() };
+              let u = $groups(&self.env, root).actual_subscribe(gp);
               <$boxsub>::new(u)
             } else if self.env.prog[root - 1].op == "to_future" {
               let _ = sh.new_probe_id();
@@ -563,8 +549,8 @@ macro_rules! stash_snapshot {
   };
 }
 
-runner!(RunnerL, EnvL, build_l, local, LSubject, BoxSubscription<'static>, Rc, GroupProbeL, LBox, ReactL, MultiSubscription<'static>);
-runner!(RunnerT, EnvT, build_t, threads, TSubject, BoxSubscriptionThreads, Arc, GroupProbeT, TBox, ReactT, MultiSubscriptionThreads);
+runner!(RunnerL, EnvL, build_l, groups_l, local, LSubject, BoxSubscription<'static>, Rc, GroupProbeL, LBox, ReactL, MultiSubscription<'static>);
+runner!(RunnerT, EnvT, build_t, groups_t, threads, TSubject, BoxSubscriptionThreads, Arc, GroupProbeT, TBox, ReactT, MultiSubscriptionThreads);
 
 /// Run one behaviour; a behaviour ends at its first fault.
 pub fn run_behaviour(form: &str, prog: Vec<Ast>, cfg: &Cfg, stims: &[Stim]) -> Vec<StepObs> {
